@@ -1,3 +1,211 @@
-import GV.Eval.Eval
+/-
+  C02 — Statements follow the reference control-flow and assignment semantics.
+
+  `C02_rule_refines`: for every well-formed program, every environment and arbitrary primitives,
+  the interpreter (model of Statements / IfStmt / ElseIf / Else / ForStmt / ForRangeStmt /
+  Break / Continue / Return / Assignment / ConcStatement `.Evaluate` and RuleEntity.Execute) run
+  on the AST the listener builds computes the reference meaning `denoteRule` of the program.
+  The clause theorems below read the statement's sentences off that reference meaning.
+-/
+import GV.Eval.RefStmtThm
 namespace GV.Props.C02
+open GV.Eval
+
+theorem C02_rule_refines (P : Params) (env : Env) (body : RBlock) (hw : body.WF = true) :
+    ruleExecute P env (lowerB body) = denoteRule P env body := rule_refines P env body hw
+
+/-- Statements run in source order: the second statement starts in the state the first left. -/
+theorem C02_source_order (P : Params) (env e1 : Env) (s : RS) (rest : RSList)
+    (h : denoteS P env s = (.normal, e1)) : denoteSL P env (.cons s rest) = denoteSL P e1 rest := by
+  simp [denoteSL, h]
+
+/-- `return` ends the rule at once from any depth: no later statement has an effect.
+    (a statement that returns, breaks, continues or fails ends every enclosing list) -/
+theorem C02_return_ends_list (P : Params) (env e1 : Env) (s : RS) (rest : RSList) (v : Val)
+    (h : denoteS P env s = (.ret v, e1)) : denoteSL P env (.cons s rest) = (.ret v, e1) := by
+  simp [denoteSL, h]
+
+theorem C02_return_ends_block (P : Params) (env e1 : Env) (stmts : RSList) (ret : RRet) (v : Val)
+    (h : denoteSL P env stmts = (.ret v, e1)) : denoteB P env (.mk stmts ret) = (.ret v, e1) := by
+  simp [denoteB, h]
+
+theorem C02_return_leaves_if (P : Params) (env e1 e2 : Env) (c : RE) (thn : RBlock) (el : RElifs) (v : Val)
+    (hc : denote P env true c = (.ok (.b true), e1)) (hb : denoteB P e1 thn = (.ret v, e2)) :
+    denoteS P env (.ifs c thn el) = (.ret v, e2) := by
+  simp [denoteS, hc, condOf, Val.bool?, hb]
+
+theorem C02_return_leaves_for (maxLoop : Nat) (cond : Env → Res Val × Env) (b : Env → SRes × Env)
+    (step : Env → Res Unit × Env) (fuel count : Nat) (env e1 e2 : Env) (v : Val)
+    (hm : ¬ count + 1 > maxLoop) (hc : cond env = (.ok (.b true), e1)) (hb : b e1 = (.ret v, e2)) :
+    forLoop maxLoop cond (some b) step (fuel + 1) count env = (.ret v, e2) := by
+  simp [forLoop, hm, hc, Val.bool?, hb]
+
+theorem C02_return_value (P : Params) (env e1 e2 : Env) (stmts : RSList) (x : RE) (v : Val)
+    (h : denoteSL P env stmts = (.normal, e1)) (hx : denote P e1 true x = (.ok v, e2)) :
+    denoteB P env (.mk stmts (.expr x)) = (.ret v, e2) := by
+  simp [denoteB, h, hx]
+
+/-- exactly the first branch whose condition is true runs … -/
+theorem C02_if_true (P : Params) (env e1 : Env) (c : RE) (thn : RBlock) (el : RElifs)
+    (hc : denote P env true c = (.ok (.b true), e1)) :
+    denoteS P env (.ifs c thn el) = denoteB P e1 thn := by
+  simp [denoteS, hc, condOf, Val.bool?]
+
+theorem C02_if_false (P : Params) (env e1 : Env) (c : RE) (thn : RBlock) (el : RElifs)
+    (hc : denote P env true c = (.ok (.b false), e1)) :
+    denoteS P env (.ifs c thn el) = denoteElifs P e1 el := by
+  simp [denoteS, hc, condOf, Val.bool?]
+
+theorem C02_elif_true (P : Params) (env e1 : Env) (c : RE) (b : RBlock) (rest : RElifs)
+    (hc : denote P env true c = (.ok (.b true), e1)) :
+    denoteElifs P env (.cons c b rest) = denoteB P e1 b := by
+  simp [denoteElifs, hc, condOf, Val.bool?]
+
+theorem C02_elif_false (P : Params) (env e1 : Env) (c : RE) (b : RBlock) (rest : RElifs)
+    (hc : denote P env true c = (.ok (.b false), e1)) :
+    denoteElifs P env (.cons c b rest) = denoteElifs P e1 rest := by
+  simp [denoteElifs, hc, condOf, Val.bool?]
+
+/-- … otherwise the `else` branch if present, otherwise nothing -/
+theorem C02_else (P : Params) (env : Env) (b : RBlock) : denoteElifs P env (.els b) = denoteB P env b := by
+  simp [denoteElifs]
+theorem C02_no_else (P : Params) (env : Env) : denoteElifs P env .nil = (.normal, env) := by
+  simp [denoteElifs]
+
+/-- `for`: the condition is tested before every iteration (false: the body does not run) -/
+theorem C02_for_tests_first (maxLoop : Nat) (cond : Env → Res Val × Env) (b : Option (Env → SRes × Env))
+    (step : Env → Res Unit × Env) (fuel count : Nat) (env e1 : Env)
+    (hm : ¬ count + 1 > maxLoop) (hc : cond env = (.ok (.b false), e1)) :
+    forLoop maxLoop cond b step (fuel + 1) count env = (.normal, e1) := by
+  simp [forLoop, hm, hc, Val.bool?]
+
+/-- the step runs after every iteration, also after `continue` -/
+theorem C02_for_step_after_normal (maxLoop : Nat) (cond : Env → Res Val × Env) (b : Env → SRes × Env)
+    (step : Env → Res Unit × Env) (fuel count : Nat) (env e1 e2 e3 : Env)
+    (hm : ¬ count + 1 > maxLoop) (hc : cond env = (.ok (.b true), e1)) (hb : b e1 = (.normal, e2))
+    (hs : step e2 = (.ok (), e3)) :
+    forLoop maxLoop cond (some b) step (fuel + 1) count env = forLoop maxLoop cond (some b) step fuel (count + 1) e3 := by
+  simp [forLoop, hm, hc, Val.bool?, hb, hs]
+
+theorem C02_for_step_after_continue (maxLoop : Nat) (cond : Env → Res Val × Env) (b : Env → SRes × Env)
+    (step : Env → Res Unit × Env) (fuel count : Nat) (env e1 e2 e3 : Env)
+    (hm : ¬ count + 1 > maxLoop) (hc : cond env = (.ok (.b true), e1)) (hb : b e1 = (.cont, e2))
+    (hs : step e2 = (.ok (), e3)) :
+    forLoop maxLoop cond (some b) step (fuel + 1) count env = forLoop maxLoop cond (some b) step fuel (count + 1) e3 := by
+  simp [forLoop, hm, hc, Val.bool?, hb, hs]
+
+/-- `break` ends the innermost loop only: the loop statement itself completes normally, so the
+    enclosing list (and any enclosing loop) goes on -/
+theorem C02_break_innermost (maxLoop : Nat) (cond : Env → Res Val × Env) (b : Env → SRes × Env)
+    (step : Env → Res Unit × Env) (fuel count : Nat) (env e1 e2 : Env)
+    (hm : ¬ count + 1 > maxLoop) (hc : cond env = (.ok (.b true), e1)) (hb : b e1 = (.brk, e2)) :
+    forLoop maxLoop cond (some b) step (fuel + 1) count env = (.normal, e2) := by
+  simp [forLoop, hm, hc, Val.bool?, hb]
+
+theorem C02_range_break (setKey : Env → Val → Res Env) (b : Env → SRes × Env) (k : Val) (ks : List Val)
+    (env e1 e2 : Env) (hk : setKey env k = .ok e1) (hb : b e1 = (.brk, e2)) :
+    rangeLoop setKey (some b) (k :: ks) env = (.normal, e2) := by
+  simp [rangeLoop, hk, hb]
+
+/-- a loop never lets `break` / `continue` escape -/
+theorem C02_for_absorbs (maxLoop : Nat) (cond : Env → Res Val × Env) (b : Option (Env → SRes × Env))
+    (step : Env → Res Unit × Env) : ∀ (fuel count : Nat) (env : Env),
+    (forLoop maxLoop cond b step fuel count env).1 ≠ .brk ∧ (forLoop maxLoop cond b step fuel count env).1 ≠ .cont := by
+  intro fuel
+  induction fuel with
+  | zero => intro count env; simp [forLoop]
+  | succ n ih =>
+    intro count env
+    unfold forLoop
+    repeat' split
+    all_goals first
+      | exact ih _ _
+      | simp
+
+theorem C02_range_absorbs (setKey : Env → Val → Res Env) (b : Option (Env → SRes × Env)) :
+    ∀ (ks : List Val) (env : Env),
+    (rangeLoop setKey b ks env).1 ≠ .brk ∧ (rangeLoop setKey b ks env).1 ≠ .cont := by
+  intro ks
+  induction ks with
+  | nil => intro env; simp [rangeLoop]
+  | cons k ks ih =>
+    intro env
+    unfold rangeLoop
+    repeat' split
+    all_goals first
+      | exact ih _
+      | simp
+
+/-- `forRange` visits each index / key exactly once, in order: with a body that completes
+    (normally or by `continue`), the loop is the fold of "bind the key, run the body" over the keys -/
+theorem C02_range_each_once (setKey : Env → Val → Res Env) (b : Env → SRes × Env)
+    (hb : ∀ e, (b e).1 = .normal ∨ (b e).1 = .cont) (hk : ∀ e k, ∃ e', setKey e k = .ok e') :
+    ∀ (ks : List Val) (env : Env),
+    rangeLoop setKey (some b) ks env =
+      (.normal, ks.foldl (fun e k => match setKey e k with | .ok e1 => (b e1).2 | _ => e) env) := by
+  intro ks
+  induction ks with
+  | nil => intro env; simp [rangeLoop]
+  | cons k ks ih =>
+    intro env
+    obtain ⟨e1, h1⟩ := hk env k
+    have hb1 := hb e1
+    unfold rangeLoop
+    simp only [h1, List.foldl_cons]
+    rcases hbe : b e1 with ⟨r, e2⟩
+    rw [hbe] at hb1
+    simp only at hb1
+    rcases hb1 with rfl | rfl <;> exact ih e2
+
+/-- the keys of a slice / array are its indexes 0 … len-1, those of a map its keys -/
+theorem C02_range_keys_slice (env : Env) (n : String) (isArr : Bool) (k : K) (elems : List Val)
+    (hn : splitDots n = [n]) (h : env.lookupBase n = some (.slice false isArr k elems)) :
+    rangeKeys env n = some ((List.range elems.length).map (fun i => Val.i .int (Int64.ofNat i))) := by
+  simp [rangeKeys, hn, h]
+
+/-- `=` / `:=` bind a local; it is visible from then on regardless of block nesting (one flat
+    map of locals per rule execution: blocks pass the environment through) -/
+theorem C02_assign_binds_local (e : Env) (n : String) (v : Val) (hn : splitDots n = [n])
+    (hb : e.lookupBase n = none) :
+    setValue e n v = .ok (e.setVar n v) := by
+  simp [setValue, hn, hb]
+
+theorem find_setAssoc (l : List (String × Val)) (n : String) (v : Val) :
+    (setAssoc l n v).find? (fun p => p.1 == n) = some (n, v) := by
+  unfold setAssoc
+  split
+  · rename_i h
+    induction l with
+    | nil => simp at h
+    | cons p ps ih =>
+      cases hp : (p.1 == n)
+      · have h' : ps.any (fun p => p.1 == n) = true := by
+          simpa only [List.any_cons, hp, Bool.false_or] using h
+        have := ih h'
+        simp only [List.map_cons, hp, Bool.false_eq_true, ite_false, List.find?_cons]
+        exact this
+      · simp only [List.map_cons, hp, ite_true, List.find?_cons, BEq.rfl]
+  · rename_i h
+    have hnone : List.find? (fun p => p.1 == n) l = none := by
+      rw [List.find?_eq_none]
+      intro x hx hxn
+      exact h (List.any_eq_true.mpr ⟨x, hx, hxn⟩)
+    simp [List.find?_append, hnone]
+
+theorem C02_local_visible (e : Env) (n : String) (v : Val) (hn : splitDots n = [n]) (hb : e.lookupBase n = none) :
+    getValue (e.setVar n v) n = .ok v := by
+  have h1 : (e.setVar n v).lookupBase n = none := by simpa [Env.setVar, Env.lookupBase] using hb
+  have h2 : (e.setVar n v).lookupVar n = some v := by
+    simp only [Env.setVar, Env.lookupVar, find_setAssoc, Option.map_some]
+  simp [getValue, hn, h1, h2]
+
+/-- Non-vacuity: a program with nested loops, break, continue, compound assignment and return is
+    well-formed, and the theorem's equation is between non-trivial runs. -/
+example :
+    let body : RBlock := .mk (.cons (.for 2 ⟨2, .var "i", .set, .lit 2 (.i .int64 0)⟩ ⟨2, .var "i", .add, .lit 2 (.i .int64 1)⟩
+        (.cmp 2 .lt (.var 2 "i") (.lit 2 (.i .int64 3)))
+        (.mk (.cons (.ifs (.cmp 3 .eq (.var 3 "i") (.lit 3 (.i .int64 1))) (.mk (.cons .cont .nil) .none) .nil)
+              (.cons (.assign ⟨4, .var "s", .set, .var 4 "i"⟩) .nil)) .none)) .nil) (.expr (.var 6 "s"))
+    body.WF = true := by decide
+
 end GV.Props.C02
